@@ -354,6 +354,17 @@ def state_key(cfg, mon):
           tuple(sorted(map(str, mon.tag_dirty))))
 
 
+def reported_view(cfg):
+  """What a configuration reports about itself, beyond stored values."""
+  try:
+    pos = repr(cfg[:])
+  except Exception as e:  # pylint: disable=broad-except
+    pos = 'raises ' + type(e).__name__
+  return (cfg.__fn_or_cls__, pos, repr(fdl.ordered_arguments(cfg)),
+          tuple(sorted(dir(cfg))), str(cfg.__signature_info__.signature),
+          {k: len(v) for k, v in cfg.__argument_history__.items()})
+
+
 def replay_hist(world, hist, alpha, res, case, check_all=True):
   """Runs the op sequence on a fresh config with a fresh monitor. Returns
   (cfg, monitor, ok)."""
@@ -371,6 +382,7 @@ def replay_hist(world, hist, alpha, res, case, check_all=True):
     cfg_before = cfg
     if len([v for k, v in before[0].items() if isinstance(k, int)]) > 6:
       return cfg, mon, False
+    view_before = reported_view(cfg)
     cfg, outcome, suspended = apply_op(cfg, op)
     res.transitions += 1
     res.outcomes[f'{op[0]}:{outcome[:5]}'] += 1
@@ -381,8 +393,22 @@ def replay_hist(world, hist, alpha, res, case, check_all=True):
 
     if outcome != 'ok' and (op[0] not in ('suspend', 'suspend_nested',
                                            'suspend_after_disable')):
-      # a rejected edit must not leave partial entries for unchanged params
-      pass
+      # a rejected edit leaves what the configuration reports (callable,
+      # signature, positional view, dir) and its history untouched
+      view_after = reported_view(cfg)
+      # fdl.assign is documented as a sequence of setattr calls: the ones
+      # before the rejected one stay applied
+      if view_after != view_before and op[0] not in ('assign', 'assign2'):
+        diff = [i for i, (a, b_) in enumerate(zip(view_before, view_after))
+                if a != b_]
+        names = ['callable', 'cfg[:]', 'ordered_arguments', 'dir',
+                 'signature', 'history-lengths']
+        bad(f'rejected-edit-changed-state/{op[0]}/'
+            f'{"+".join(names[i] for i in diff)}',
+            f'before {[view_before[i] for i in diff]} after '
+            f'{[view_after[i] for i in diff]}')
+        ok = False
+        break
     if check_all or n == len(hist) - 1:
       if not mon.check(cfg_before, before, cfg, op, outcome, suspended, bad):
         ok = False
